@@ -6,6 +6,19 @@
  *                         mframe_schedule()): every tdma_schedule_set() call as
  *                         "fn:frame_offset:set-name:p3", space separated; "-" if none;
  *                         "crash:null-table" / "crash:div-by-zero" if the real code faults
+ *   mf.run RVS T,G,S OP OP ...
+ *                      the enable/disable/set/reset state machine and mframe_schedule() on one
+ *                      struct mframe_scheduler, initially {tasks = T, tasks_tgt = G, safe_fn = S};
+ *                      RVS = value returned by the tdma_schedule_set() stub per sched set
+ *                      (comma separated, order of c11_fw_names.inc).  OP = r (mframe_reset) |
+ *                      s<mask> (mframe_set) | e<id> (mframe_enable) | d<id> (mframe_disable) |
+ *                      p (nothing) -> "tasks,tasks_tgt,safe_fn" after the op;
+ *                      t<fn0>,<n> -> for fn = FN0 .. FN0+N-1 one token
+ *                      "<calls or ->@tasks.safe_fn" (calls "fn:frame_offset:set-name:p3" joined
+ *                      by ','), tokens joined by ' '.  Op outputs joined by '|';
+ *                      "crash:<kind>@<k>" (k = ops completed) if the real code faults;
+ *                      e / d with an id >= 32 are reported as "crash:shift-out-of-range@k"
+ *                      without being executed (undefined shift).
  * The sched sets are only identified by address (c11_fw_names.inc is generated from
  * the extern declarations of layer1/prim.h).
  */
@@ -38,30 +51,136 @@ static char *out;
 static size_t out_len, out_cap;
 static uint32_t cur_fn;
 
-static void emit(const char *s)
+static char sep = ' ';
+static int sep_pending;
+
+static void emit_raw(const char *s)
 {
 	size_t n = strlen(s);
 	if (out_len + n + 2 > out_cap) {
 		out_cap = (out_cap + n + 2) * 2;
 		out = realloc(out, out_cap);
 	}
-	if (out_len)
-		out[out_len++] = ' ';
 	memcpy(out + out_len, s, n + 1);
 	out_len += n;
 }
+
+static void emit(const char *s)
+{
+	if (sep == ' ' ? out_len != 0 : sep_pending) {
+		char b[2] = { sep, 0 };
+		emit_raw(b);
+	}
+	emit_raw(s);
+	sep_pending = 1;
+}
+
+#define MAX_SETS 64
+static int rvs[MAX_SETS];
+static int use_rvs;
 
 int tdma_schedule_set(uint8_t frame_offset, const struct tdma_sched_item *item_set, uint16_t p3)
 {
 	char buf[160];
 	const char *nm = "?";
 	int i;
+	int rv = 6;	/* number of frames the set spans (only feeds safe_fn) */
 	for (i = 0; sets[i].name; i++)
-		if (sets[i].p == item_set)
+		if (sets[i].p == item_set) {
 			nm = sets[i].name;
+			if (use_rvs)
+				rv = rvs[i];
+		}
 	snprintf(buf, sizeof(buf), "%lu:%u:%s:%u", (unsigned long) cur_fn, (unsigned) frame_offset, nm, (unsigned) p3);
 	emit(buf);
-	return 6;	/* number of frames the set spans (only feeds safe_fn) */
+	return rv;
+}
+
+static void state(char *buf, size_t n)
+{
+	snprintf(buf, n, "%lu,%lu,%lu", (unsigned long) l1s.mframe_sched.tasks,
+		 (unsigned long) l1s.mframe_sched.tasks_tgt, (unsigned long) l1s.mframe_sched.safe_fn);
+}
+
+static volatile int ops_done;
+
+/* "mf.run RVS T,G,S OP ..." (the line is modified) -> 0 ok, 1 malformed, 2 undefined shift */
+static int do_run(char *line)
+{
+	char *save = NULL, *tok, *p;
+	unsigned long t, g, sf, a, b, k;
+	char buf[128];
+	int nsets = 0, i;
+	for (i = 0; sets[i].name; i++)
+		nsets++;
+	tok = strtok_r(line, " \t\r\n", &save);		/* mf.run */
+	tok = strtok_r(NULL, " \t\r\n", &save);		/* RVS */
+	if (!tok)
+		return 1;
+	for (i = 0, p = tok; i < nsets; i++) {
+		char *end;
+		long v = strtol(p, &end, 10);
+		if (end == p || (i + 1 < nsets ? *end != ',' : *end != 0))
+			return 1;
+		rvs[i] = (int) v;
+		p = end + 1;
+	}
+	tok = strtok_r(NULL, " \t\r\n", &save);
+	if (!tok || sscanf(tok, "%lu,%lu,%lu", &t, &g, &sf) != 3)
+		return 1;
+	memset(&l1s, 0, sizeof(l1s));
+	l1s.mframe_sched.tasks = (uint32_t) t;
+	l1s.mframe_sched.tasks_tgt = (uint32_t) g;
+	l1s.mframe_sched.safe_fn = (uint32_t) sf;
+	use_rvs = 1;
+	ops_done = 0;
+	while ((tok = strtok_r(NULL, " \t\r\n", &save))) {
+		size_t start;
+		if (ops_done)
+			emit_raw("|");
+		if (!strcmp(tok, "r")) {
+			mframe_reset();
+		} else if (!strcmp(tok, "p")) {
+		} else if (tok[0] == 's' && sscanf(tok + 1, "%lu", &a) == 1) {
+			mframe_set((uint32_t) a);
+		} else if ((tok[0] == 'e' || tok[0] == 'd') && sscanf(tok + 1, "%lu", &a) == 1) {
+			if (a >= 32)
+				return 2;
+			if (tok[0] == 'e')
+				mframe_enable((enum mframe_task) a);
+			else
+				mframe_disable((enum mframe_task) a);
+		} else if (tok[0] == 't' && sscanf(tok + 1, "%lu,%lu", &a, &b) == 2) {
+			for (k = 0; k < b; k++) {
+				cur_fn = (uint32_t) (a + k);
+				l1s.current_time.fn = cur_fn;
+				if (k)
+					emit_raw(" ");
+				start = out_len;
+				sep = ',';
+				sep_pending = 0;
+				mframe_schedule();
+				sep = ' ';
+				if (out_len == start)
+					emit_raw("-");
+				snprintf(buf, sizeof(buf), "@%lu.%lu", (unsigned long) l1s.mframe_sched.tasks,
+					 (unsigned long) l1s.mframe_sched.safe_fn);
+				emit_raw(buf);
+			}
+			if (b == 0)
+				emit_raw("-");
+			ops_done++;
+			continue;
+		} else {
+			return 1;
+		}
+		state(buf, sizeof(buf));
+		emit_raw(buf);
+		ops_done++;
+	}
+	if (!ops_done)
+		emit_raw("-");
+	return 0;
 }
 
 static sigjmp_buf jb;
@@ -72,13 +191,34 @@ static void on_fault(int sig)
 
 int main(void)
 {
-	char line[256];
+	static char line[1 << 16];
 	signal(SIGSEGV, on_fault);
 	signal(SIGFPE, on_fault);
 	signal(SIGBUS, on_fault);
 	while (fgets(line, sizeof(line), stdin)) {
 		unsigned long tasks, fn0, n, k;
 		int sig;
+		if (!strncmp(line, "mf.run ", 7)) {
+			int rc;
+			out_len = 0;
+			if (out)
+				out[0] = 0;
+			sig = sigsetjmp(jb, 1);
+			if (sig == 0) {
+				rc = do_run(line);
+				if (rc == 1)
+					printf("bad-op\n");
+				else if (rc == 2)
+					printf("crash:shift-out-of-range@%d\n", ops_done);
+				else
+					printf("%s\n", out);
+			} else {
+				printf("%s@%d\n", sig == SIGFPE ? "crash:div-by-zero" : "crash:null-table", ops_done);
+			}
+			sep = ' ';
+			use_rvs = 0;
+			continue;
+		}
 		if (sscanf(line, "mf.fw %lu %lu %lu", &tasks, &fn0, &n) != 3) {
 			printf("bad-op\n");
 			continue;
